@@ -49,7 +49,7 @@ func newUniverse() *universe {
 	u.Short = userAddr(7)[:31]
 	u.Long = append(userAddr(8), 9)
 	u.MetaUser = userAddr(0xee)
-	u.Fung = [][]byte{[]byte("TKA-a1b2c3"), []byte("TKB-0000ff")}
+	u.Fung = [][]byte{[]byte("TKA-a1b2c3"), []byte("TKB-0000ff"), []byte("LONGTOKEN-0a1b2c")} // identifiers of different lengths (a stale key buffer shows only then)
 	u.NFTs = [][]byte{[]byte("NFA-112233"), []byte("SFT-445566")}
 	u.Alias = [][]byte{[]byte("AB"), []byte("ABC"), []byte("ABCD"), []byte("ABC-12345"), []byte("ABC-123456")}
 	for _, r := range []string{"ESDTRoleLocalMint", "ESDTRoleLocalBurn", "ESDTRoleNFTCreate", "ESDTRoleNFTAddQuantity", "ESDTRoleNFTBurn", "ESDTRoleNFTAddURI", "ESDTRoleNFTUpdateAttributes"} {
